@@ -2004,6 +2004,21 @@ static int _GD_AddAlias(DIRFILE *restrict D, const char *restrict parent,
     GD_RETURN_ERROR(D);
   }
 
+  /* a metafield alias is a metafield of its parent like any other */
+  if (P) {
+    void *mptr = _GD_Realloc(D, P->e->p.meta_entry, (P->e->n_meta + 1) *
+        sizeof(gd_entry_t*));
+    if (mptr == NULL) {
+      _GD_FreeE(D, E, 1);
+      GD_RETURN_ERROR(D);
+    }
+
+    P->e->p.meta_entry = (gd_entry_t **)mptr;
+    P->e->p.meta_entry[P->e->n_meta++] = E;
+    E->e->n_meta = -1;
+    E->e->p.parent = P;
+  }
+
   /* add the entry and resort the entry list */
   _GD_InsertSort(D, E, u);
   D->n_entries++;
